@@ -526,7 +526,7 @@ class ReplayTimeout(Exception):
     pass
 
 
-def limited(fn, seconds=3):
+def limited(fn, seconds=1.5):
     """run a native replay with a wall-clock limit (a mutated loop may not terminate)"""
     import signal
 
@@ -548,6 +548,16 @@ def limited(fn, seconds=3):
             signal.signal(signal.SIGALRM, old)
 
     return wrapped
+
+
+def safe_close(pool):
+    """close the replay pool; after an interrupted (non-terminating) critical section CPython leaves the
+    lock held, so give the pool a fresh one first"""
+    import threading
+
+    if pool._lock.locked():
+        pool._lock = threading.Lock()
+    pool.close()
 
 
 def build_pool(inputs):
@@ -659,7 +669,7 @@ def replay_borrow(inputs, ob):
                 problems.append("dead worker discarded without close")
         return ReplayResult(bool(problems), f"_borrow({key}) lens={inputs.get('lens')} max_idle={pool._max_idle} dead={dead}: " + "; ".join(problems))
     finally:
-        pool.close()
+        safe_close(pool)
 
 
 @unit("C32.O2 _borrow", targets=["vgi_rpc/pool.py::WorkerPool._borrow"], replay=limited(replay_borrow), min_obligations=20)
@@ -758,7 +768,7 @@ def replay_evict(inputs, ob):
             problems.append("nothing idle but something happened")
         return ReplayResult(bool(problems), f"_evict_oldest_locked lens={inputs.get('lens')}: " + "; ".join(problems))
     finally:
-        pool.close()
+        safe_close(pool)
 
 
 @unit("C32.O4 _evict_oldest_locked", targets=["vgi_rpc/pool.py::WorkerPool._evict_oldest_locked"], replay=limited(replay_evict), min_obligations=10)
@@ -843,7 +853,7 @@ def replay_return(inputs, ob):
             f"WorkerPool(max_idle={pool._max_idle}) idle queue lengths {inputs.get('lens')}; _return_worker(worker, stream_opened={abandoned}) dead={dead} pool_closed={closed} -> idle_count={len(idle)}: " + "; ".join(problems),
         )
     finally:
-        pool.close()
+        safe_close(pool)
 
 
 @unit("C32.O3 _return_worker", targets=["vgi_rpc/pool.py::WorkerPool._return_worker"], replay=limited(replay_return), min_obligations=30)
@@ -1182,7 +1192,7 @@ def replay_reap(inputs, ob):
             problems.append("an idle worker was closed")
         return ReplayResult(bool(problems), f"_reap_expired with idle queue lengths {inputs.get('lens')}: {len(before)} -> {len(after)} idle; " + "; ".join(problems))
     finally:
-        pool.close()
+        safe_close(pool)
 
 
 @unit("C32.O5 _reap_expired", targets=["vgi_rpc/pool.py::WorkerPool._reap_expired"], replay=limited(replay_reap), min_obligations=20)
